@@ -189,6 +189,151 @@ Proof.
     + lia.
 Qed.
 
+(* ---------------------------------------------------------------- calls made from inside a callee body *)
+Lemma bind_in_length : forall mech fr0 ps h fr th h1 fr1 th1,
+  bind_in mech h fr0 ps fr th = Some (h1, fr1, th1) -> length h <= length h1.
+Proof.
+  induction ps as [|[m a] ps]; simpl; intros h fr th h1 fr1 th1 H.
+  - inversion H; auto.
+  - destruct (resolve h fr0 a); try discriminate.
+    destruct m.
+    + destruct (hread h c); try discriminate. apply IHps in H. rewrite app_length in H. simpl in H. lia.
+    + apply IHps in H. rewrite app_length in H. simpl in H. lia.
+    + apply IHps in H. rewrite app_length in H. simpl in H. lia.
+    + destruct mech.
+      * destruct (hread h c); try discriminate. apply IHps in H. rewrite app_length in H. simpl in H. lia.
+      * apply IHps in H. rewrite app_length in H. simpl in H. lia.
+    + destruct mech.
+      * destruct (hread h c); try discriminate. apply IHps in H. rewrite app_length in H. simpl in H. lia.
+      * apply IHps in H. rewrite app_length in H. simpl in H. lia.
+Qed.
+
+Lemma bind_in_frame : forall mech fr0 ps h fr th h1 fr1 th1 d,
+  bind_in mech h fr0 ps fr th = Some (h1, fr1, th1) -> fst d < length h -> hread h1 d = hread h d.
+Proof.
+  induction ps as [|[m a] ps]; simpl; intros h fr th h1 fr1 th1 d H L.
+  - inversion H; auto.
+  - assert (A : forall v, fst d < length (h ++ [v])) by (intros; rewrite app_length; simpl; lia).
+    destruct (resolve h fr0 a); try discriminate.
+    destruct m.
+    + destruct (hread h c); try discriminate. rewrite (IHps _ _ _ _ _ _ d H (A _)). apply hread_alloc; auto.
+    + rewrite (IHps _ _ _ _ _ _ d H (A _)). apply hread_alloc; auto.
+    + rewrite (IHps _ _ _ _ _ _ d H (A _)). apply hread_alloc; auto.
+    + destruct mech.
+      * destruct (hread h c); try discriminate. rewrite (IHps _ _ _ _ _ _ d H (A _)). apply hread_alloc; auto.
+      * rewrite (IHps _ _ _ _ _ _ d H (A _)). apply hread_alloc; auto.
+    + destruct mech.
+      * destruct (hread h c); try discriminate. rewrite (IHps _ _ _ _ _ _ d H (A _)). apply hread_alloc; auto.
+      * rewrite (IHps _ _ _ _ _ _ d H (A _)). apply hread_alloc; auto.
+Qed.
+
+(* binding in the empty frame is the binding of a call made from main *)
+Lemma bind_in_nil : forall mech ps h fr th, bind_in mech h [] ps fr th = bind mech h ps fr th.
+Proof.
+  induction ps as [|[m a] ps]; simpl; intros h fr th; auto.
+  destruct (resolve h [] a); auto.
+  destruct m; try (destruct mech); try (destruct (hread h c)); auto.
+Qed.
+
+Lemma exec_call_in_frame : forall mech h fr0 th0 ps body ret h' out fp d,
+  exec_call_in mech h fr0 th0 ps body ret = Some (h', out, fp) -> fst d < length h ->
+  (forall w, In w fp -> overlap w d = false) ->
+  hread h' d = hread h d /\ length h <= length h'.
+Proof.
+  unfold exec_call_in; intros mech h fr0 th0 ps body ret h' out fp d H L F.
+  destruct (bind_in mech h fr0 ps [] []) as [[[h1 fr] th]|] eqn:B; try discriminate.
+  destruct (exec_sops h1 fr (th ++ th0) body) as [[[h2 o2] f2]|] eqn:E; try discriminate.
+  pose proof (bind_in_length _ _ _ _ _ _ _ _ _ B) as L1.
+  pose proof (exec_sops_length _ _ _ _ _ _ _ E) as L2.
+  destruct (match ret with Some (e, _) => eval h2 fr e | None => Some (VInt 0) end) as [rv|]; try discriminate.
+  destruct (copy_back h2 th) as [[h3 fb]|] eqn:C; try discriminate.
+  pose proof (copy_back_length _ _ _ _ C) as L3.
+  assert (R3 : forall fp', (forall w, In w (f2 ++ fb ++ fp') -> overlap w d = false) -> hread h3 d = hread h d).
+  { intros fp' F'. rewrite (copy_back_frame _ _ _ _ d C).
+    - rewrite (exec_sops_frame _ _ _ _ _ _ _ d E).
+      + eapply bind_in_frame; eauto.
+      + intros; apply F'; apply in_or_app; auto.
+    - intros; apply F'; apply in_or_app; right; apply in_or_app; auto. }
+  destruct ret as [[e [dd|]]|].
+  - destruct (resolve h3 fr0 dd); try discriminate. destruct (hwrite_t h3 th0 c rv) eqn:W; try discriminate.
+    inversion H; subst. split.
+    + rewrite (hwrite_t_frame _ _ _ _ _ d W).
+      * apply (R3 (fp_of th0 c)). intros; apply F. rewrite app_assoc in H0. rewrite app_assoc. auto.
+      * intros. apply F. apply in_or_app; right. apply in_or_app; right. auto.
+    + rewrite (hwrite_t_length _ _ _ _ _ W). lia.
+  - inversion H; subst. split.
+    + rewrite hread_alloc by lia. apply (R3 []). rewrite app_nil_r. auto.
+    + rewrite app_length; simpl; lia.
+  - inversion H; subst. split.
+    + apply (R3 []). rewrite app_nil_r. auto.
+    + lia.
+Qed.
+
+Lemma exec_stmt_frame : forall mech h fr th s h' out fp d,
+  exec_stmt mech h fr th s = Some (h', out, fp) -> fst d < length h ->
+  (forall w, In w fp -> overlap w d = false) ->
+  hread h' d = hread h d /\ length h <= length h'.
+Proof.
+  intros mech h fr th s h' out fp d H L F. destruct s; simpl in H.
+  - split. eapply exec_sop_frame; eauto. rewrite (exec_sop_length _ _ _ _ _ _ _ H). lia.
+  - eapply exec_call_in_frame; eauto.
+Qed.
+
+Lemma exec_stmts_frame : forall mech ss h fr th h' o fp d,
+  exec_stmts mech h fr th ss = Some (h', o, fp) -> fst d < length h ->
+  (forall w, In w fp -> overlap w d = false) ->
+  hread h' d = hread h d /\ length h <= length h'.
+Proof.
+  induction ss; simpl; intros h fr th h' o fp d H L F.
+  - inversion H; auto.
+  - destruct (exec_stmt mech h fr th a) as [[[h1 o1] f1]|] eqn:E; try discriminate.
+    destruct (exec_stmts mech h1 fr th ss) as [[[h2 o2] f2]|] eqn:E2; try discriminate.
+    inversion H; subst.
+    destruct (exec_stmt_frame _ _ _ _ _ _ _ _ d E L) as [A1 A2].
+    { intros; apply F; apply in_or_app; auto. }
+    destruct (IHss _ _ _ _ _ _ d E2) as [B1 B2]; try lia.
+    { intros; apply F; apply in_or_app; auto. }
+    split; [congruence | lia].
+Qed.
+
+Lemma exec_call2_frame : forall mech h ps body ret h' out fp d,
+  exec_call2 mech h ps body ret = Some (h', out, fp) -> fst d < length h ->
+  (forall w, In w fp -> overlap w d = false) ->
+  hread h' d = hread h d /\ length h <= length h'.
+Proof.
+  unfold exec_call2; intros mech h ps body ret h' out fp d H L F.
+  destruct (bind mech h ps [] []) as [[[h1 fr] th]|] eqn:B; try discriminate.
+  destruct (exec_stmts mech h1 fr th body) as [[[h2 o2] f2]|] eqn:E; try discriminate.
+  pose proof (bind_length _ _ _ _ _ _ _ _ B) as L1.
+  destruct (match ret with Some (e, _) => eval h2 fr e | None => Some (VInt 0) end) as [rv|]; try discriminate.
+  destruct (copy_back h2 th) as [[h3 fb]|] eqn:C; try discriminate.
+  pose proof (copy_back_length _ _ _ _ C) as L3.
+  assert (R3 : forall fp', (forall w, In w (f2 ++ fb ++ fp') -> overlap w d = false) ->
+                           hread h3 d = hread h d /\ length h <= length h3).
+  { intros fp' F'.
+    destruct (exec_stmts_frame _ _ _ _ _ _ _ _ d E) as [A1 A2]; try lia.
+    { intros; apply F'; apply in_or_app; auto. }
+    split; [|lia].
+    rewrite (copy_back_frame _ _ _ _ d C).
+    - rewrite A1. eapply bind_frame; eauto.
+    - intros; apply F'; apply in_or_app; right; apply in_or_app; auto. }
+  destruct ret as [[e [dd|]]|].
+  - destruct (resolve h3 [] dd); try discriminate. destruct (hwrite h3 c rv) eqn:W; try discriminate.
+    inversion H; subst.
+    destruct (R3 [c]) as [A1 A2].
+    { intros; apply F. rewrite app_assoc in H0. rewrite app_assoc. auto. }
+    split.
+    + rewrite (hread_hwrite_disjoint _ _ _ _ d W); auto.
+      apply F. apply in_or_app; right. apply in_or_app; right. simpl; auto.
+    + rewrite (hwrite_length _ _ _ _ W). lia.
+  - inversion H; subst.
+    destruct (R3 []) as [A1 A2]. { rewrite app_nil_r. auto. }
+    split.
+    + rewrite hread_alloc by lia. auto.
+    + rewrite app_length; simpl; lia.
+  - inversion H; subst. apply (R3 []). rewrite app_nil_r. auto.
+Qed.
+
 Lemma exec_op_frame : forall mech h o h' out fp d,
   exec_op mech h o = Some (h', out, fp) -> fst d < length h ->
   (forall w, In w fp -> overlap w d = false) ->
@@ -200,6 +345,7 @@ Proof.
   - destruct (eval h [] s); try discriminate. inversion H; subst. split.
     apply hread_alloc; auto. rewrite app_length; lia.
   - eapply exec_call_frame; eauto.
+  - eapply exec_call2_frame; eauto.
 Qed.
 
 (* a history changes only the cells in its footprint (for both calling conventions) *)
@@ -282,6 +428,7 @@ Definition writes_avoid (l : loc) (os : list op) : Prop :=
                    | ONop _ => True
                    | ODecl _ => True
                    | OCall _ _ _ => False
+                   | OCall2 _ _ _ => False
                    end) os.
 
 Lemma resolve_root : forall h fr a r c, root_of a = Some r -> resolve h fr a = Some c -> fst c = r.
